@@ -559,9 +559,9 @@ Definition exec_lact (st : wstate) (t : tid) (a : lact) (r : list instr) : wstat
       let '(st1, ev) := ghost_handler st t HReserved false in
       (set_cont (set_dl st1 []) t (IUnlock MDL (UDels (dl st)) :: r), ev)
   | LChInit c =>
-      let x := chs st c in
-      (set_cont (set_chan st c (mkChan (cexists x) (creg x) (cguard x) (cexists x) (cq x) (cw x))) t
-                (IUnlock (MCh c) (UChReg c) :: r), [])
+      (* [arc.lock().unwrap().waker = Some(waker)]: nobody else can reach the channel before it is registered,
+         so the model stores the waker at creation; this step is the lock itself *)
+      (set_cont st t (IUnlock (MCh c) (UChReg c) :: r), [])
   | LChSend c m =>
       let x := chs st c in
       if copen x then
@@ -692,7 +692,7 @@ Definition begin_cmd (st : wstate) (t : tid) (c : cmd) : wstate * list wevent * 
   | CClosed c =>
       if creg (chs st c) then (set_cont st t [ILock (MCh c) (LChClosed c)], [], None) else bad
   | CNew w =>
-      if negb (is_main t) || wused st w then bad
+      if negb (is_main t) || wused st w || (1000000 <=? w) || (w <? 0) then bad
       else match wh_add st (HPlain w) with
            | Some (st1, wi) =>
              (set_wused (set_wreg st1 (updZ (wreg st1) w (Some wi))) (updZ (wused st1) w true),
@@ -722,7 +722,7 @@ Definition begin_cmd (st : wstate) (t : tid) (c : cmd) : wstate * list wevent * 
       if negb (is_main t) || cexists (chs st c) then bad
       else match wh_add st (HChan c) with
            | Some (st1, wi) =>
-             (set_cont (set_chan st1 c (mkChan true false false false [] wi)) t [ILock (MCh c) (LChInit c)],
+             (set_cont (set_chan st1 c (mkChan true false false true [] wi)) t [ILock (MCh c) (LChInit c)],
               [EAdd (wbit wi) (HChan c)], None)
            | None => (st, [EErr], Some RBad)
            end
